@@ -2,7 +2,8 @@
    Model/DhcpPolicy.v is the policy walk as coded (check_policy, apply_policy,
    apply_policies); Model/DhcpPolicySpec.v is erbium.conf(5) (conds/holds,
    matches, selected, apply_chain, chain_value). *)
-From Erbium Require Import Lib.Base Model.DhcpPolicy Model.DhcpPolicySpec Proofs.DhcpPolicy.
+From Erbium Require Import Lib.Base Model.DhcpPolicy Model.DhcpPolicySpec Model.DhcpAddrs Model.DhcpAddrsSpec
+  Proofs.DhcpPolicy Proofs.DhcpAddrs.
 
 (* the coded walk = the manual's selected chain, applied outer to inner *)
 Theorem C11_walk_is_spec : forall req ps resp,
@@ -130,3 +131,27 @@ Check C11_only_requested_options : forall req ps resp k,
   requested req k = false ->
   tget k (rs_opts (snd (apply_policies req ps resp))) = tget k (rs_opts resp).
 Print Assumptions C11_only_requested_options.
+
+(* "top-level defaults (DNS servers with $self4 replaced by the receiving
+   address, search list, captive portal) apply unless overridden": after the
+   whole walk of handle_discover/handle_request (built-in base policy, then
+   dhcp-policies) a requested option 6 / 119 / 114 has the top-level value
+   (IPv6 servers filtered out, $self4 = receiving address) unless a policy of
+   the selected chain names it -- then the innermost such policy decides
+   (a value, or null = not sent).
+   Partial: the interface MTU / router (options 26, 3) and the netmask /
+   broadcast of the matched `addresses` subnet are modelled (build_default,
+   subnet_defaults) and compared with the code on every run, but not stated
+   as theorems. *)
+Theorem C11_defaults_unless_overridden_partial : forall g req init k,
+  requested req k = true -> k = 6 \/ k = 119 \/ k = 114 ->
+  tget k (rs_opts (snd (policy_walk g req init))) =
+  chain_value k (match selected req (conf_policies g) with Some ch => ch | None => [] end)
+    (top_level_default g req k).
+Proof. exact defaults_unless_overridden. Qed.
+Check C11_defaults_unless_overridden_partial : forall g req init k,
+  requested req k = true -> k = 6 \/ k = 119 \/ k = 114 ->
+  tget k (rs_opts (snd (policy_walk g req init))) =
+  chain_value k (match selected req (conf_policies g) with Some ch => ch | None => [] end)
+    (top_level_default g req k).
+Print Assumptions C11_defaults_unless_overridden_partial.
